@@ -562,6 +562,17 @@ def g_solids(ctx, rng, i):
         _try(moved.intersect, g.Line(g.Point(c2 + np.array([0, 0, 2, 0])), g.Point(c2 - np.array([0, 0, 2, 0]))))
         _try(moved.intersect, g.Segment(g.Point(c2 + np.array([0, 0, 2, 0])), g.Point(c2 - np.array([0, 0, 2, 0]))))
         _try(g.Segment(g.Point(c2 + np.array([0, 0, 2, 0])), g.Point(c2 - np.array([0, 0, 2, 0]))).intersect, moved)
+    # the solid itself moved after it has been queried: the same lines moved along, and the old lines (now missing or hitting elsewhere)
+    shift = np.array(gen.nonzero_vec(rng, 3, 3)) * 2
+    for mv in (lambda: solid + g.Point(*shift.tolist()), lambda: g.translation(*shift.tolist()) * solid):
+        ms = _try(mv)
+        if ms is None or not hasattr(ms, "intersect"):
+            continue
+        sh = np.append(shift, 0)
+        _try(ms.intersect, g.Line(g.Point(c0 + sh), g.Point(c1 + sh)))
+        _try(ms.intersect, g.Line(g.Point(mid + 2 * sh), g.Point(mid + 2 * sh + np.array([2, 0, 0, 0]))))
+        _try(ms.intersect, g.Segment(g.Point(mid), g.Point(mid + np.array([20, 0, 0, 0]))))
+        _try(ms.intersect, g.Line(g.Point(c0), g.Point(c1)))
     tm = gen.invertible_int_matrix(rng, 4, 1, affine=True)
     img = _try(lambda: g.Transformation(tm) * face)
     if img is not None and R.is_dyadic(img.array, 40, 2 ** 20):
